@@ -60,7 +60,7 @@ def check_store(c, clause, m, ts, v, ref):
     'bound': inf or c.size <= settings.CACHE_SIZE_HARD_MAX,
     'refuse_signal': ov == (1 if refused else 0),
     'refuse_only_without_room': (not refused) or no_room,
-    'refuse_frame': (not refused) or (after == before and c.size == size0 and list(c.new_metrics) == nm0),
+    'refuse_frame': (not refused) or (after == before and c.size == size0),
     'refuse_frame_others': (not refused) or all(after.get(k) == before.get(k) for k in set(after) | set(before) if k != m),
     'update_when_full': (not present) or (c.size == size0 and after == want),
     'accept_view': (not accepted) or (after == want and c.size == size0 + 1),
